@@ -57,6 +57,14 @@ CHECKS = {
             "One abstract program is rendered under many spelling styles by a context-aware renderer and assembled each time; the corpus is "
             "respelled with the context-free-safe subset of the rules. (status, base, bytes) must be identical.",
             "The renderer must only produce spellings the statement calls equivalent (e.g. it never respells a digit string that is a local label).", "3 C10"),
+    "C11": ("exploration", "reference scoping model with unique values per definition; probe words identify the bound definition; outcome classifier for planted faults",
+            "Generated multi-file / include-tree programs reuse local and private names across scopes and use every export form in every order; "
+            "each definition has a unique value so a probe word shows which definition was bound; invisibility and duplication are planted.",
+            "The scoping rules in vlib/apm.py Ref follow the statement (and the documented include behaviour).", "3 C11"),
+    "C12": ("exploration", "reference layout + base fixed point / perturbation test vs reported base, image and outcome class",
+            "Link expressions of the stated shapes are generated with labels anywhere in 1-3 files and the directive at any position; the reference "
+            "computes the base by fixed point and decides self-dependence by perturbing the base; skips 0-64 forward/backward are checked for exact zero fill / refusal.",
+            "One listed finding (cancelling base with address-dependent sizes between the labels) is matched by a predicate over the generated program.", "3 C12"),
     "C13": ("exploration", "independent container readers (bin, RIFF, BK tape demodulator) over outputs of the real format functions and of shim-observed CLI runs",
             "Contract-style wrappers feed the real file_formats functions with synthetic (base, image, name) and decode what they return with "
             "independent readers; CLI runs are observed through an audit-hook/snapshot shim so that the set of files written is compared with "
